@@ -113,13 +113,13 @@ package jsonschema
 //@   ensures result1 ==> result0 != nil
 //@   ensures result1 ==> fresh(result0)
 //@   ensures bykind: isIntKind(kind(v)) || isUintKind(kind(v)) || isFloatKind(kind(v)) ==> result1
-//@   ensures[C08,C11] isnum: shaped(v) && kind(v) != 20 && kind(v) != 22 ==> result1 == isJNum(jv(v))
-//@   ensures[C08,C11] value: shaped(v) && result1 ==> RatVal[result0] == jn(jv(v))
+//@   ensures[C01,C08,C11] isnum: shaped(v) && kind(v) != 20 && kind(v) != 22 ==> result1 == isJNum(jv(v))
+//@   ensures[C01,C08,C11] value: shaped(v) && result1 ==> RatVal[result0] == jn(jv(v))
 
 //@ contract jsonType(v)
 //@   pure
-//@   ensures[C08] total: shaped(v) && kind(v) != 20 && kind(v) != 22 ==> result1
-//@   ensures[C08] name: shaped(v) && kind(v) != 20 && kind(v) != 22 ==> result0 == typeName(jv(v))
+//@   ensures[C01,C08] total: shaped(v) && kind(v) != 20 && kind(v) != 22 ==> result1
+//@   ensures[C01,C08] name: shaped(v) && kind(v) != 20 && kind(v) != 22 ==> result0 == typeName(jv(v))
 
 //@ contract isJSONString(v)
 //@   pure
@@ -252,7 +252,7 @@ package jsonschema
 //@   ensures mapsP: callerAnns != nil ==> (callerAnns.evaluatedProperties == old(callerAnns.evaluatedProperties) || fresh(callerAnns.evaluatedProperties))
 //@   let applies = !(schema.Ref != "" && st.rs.draft == 0)
 //@   let inst0 = instance
-//@   atline[C01] "// enum:" cp1 uses samejv,shaped: jv(instance) == jv(inst0) && okType(schema, instance)
+//@   atline[C01,C08] "// enum:" cp1 uses samejv,shaped: jv(instance) == jv(inst0) && okType(schema, instance)
 //@   atline[C01,C12] "// numbers:" cp2 uses samejv: okConst(schema, instance)
 //@   atline[C01] "// strings:" cp3 uses samejv,shaped: okNum(schema, instance)
 //@   atline[C01] "// $dynamicRef:" cp4 uses samejv,shaped: okStr(schema, instance)
@@ -289,13 +289,15 @@ package jsonschema
 //@   loopinv stackelems: new(st.stack) && fresh(st.stack) && (forall i int {st.stack[i]} :: 0 <= i && i < len(stk0) ==> st.stack[i] == old(stk0[i])) && st.stack[len(stk0)] == schema
 //@   loopinv stackrs: new(st.stack) && fresh(st.stack) && (forall i int {st.stack[i]} :: 0 <= i && i < len(st.stack) ==> inRS(rs, st.stack[i]))
 //@   loopinv anns: annsLocal(anns)
-//@   loopinv[C01] samejv: jv(instance) == jv(inst0)
+//@   loopinv[C01,C08] samejv: jv(instance) == jv(inst0)
 //@   loopinv[C01] p_type after "for instance.Kind() == reflect.Pointer || instance.Kind() == reflect.Interface": okType(schema, instance)
 //@   loopinv[C01,C12] p_const after "range schema.Enum": okConst(schema, instance)
 //@   loopinv[C01] p_num after "range schema.Enum": okNum(schema, instance)
 //@   loopinv[C01] p_str after "range schema.Enum": okStr(schema, instance)
 //@   loopinv[C01] p_items after "range instance.Len()": okItems(schema, instance)
 //@   loopinv[C01] p_props after "range properties(instance)#4": okProps(schema, instance)
+//@   loop "for instance.Kind() == reflect.Pointer || instance.Kind() == reflect.Interface"
+//@     exit[C08] unwrapped: kind(instance) != 20 && kind(instance) != 22 && jv(instance) == jv(inst0)
 //@   loop "range schema.Enum"
 //@     invariant[C12] noneq: isold(schema) && isold(schema.Enum) && !ok && (forall j int {schema.Enum[j]} :: 0 <= j && j <= $idx ==> !eqv(rvof(schema.Enum[j]), instance))
 //@     exit[C12] found: isold(schema) && isold(schema.Enum) && ($idx < len(schema.Enum) ==> 0 <= $idx && eqv(rvof(schema.Enum[$idx]), instance))
